@@ -346,81 +346,253 @@ theorem lookupLast_nodup {id : Nat} {m : Mem} :
       rw [hr]; simp [hk, hm]
     · rw [lookupLast_nodup hn.2 hin]
 
+theorem lookupLast_isSome_of_key {id : Nat} :
+    ∀ {s : State}, (∃ r ∈ s, r.1 = id) → ∃ m, lookupLast id s = some m
+  | [], h => by simp at h
+  | (k, m0) :: rest, h => by
+    unfold lookupLast
+    cases hr : lookupLast id rest with
+    | some m' => exact ⟨m', rfl⟩
+    | none =>
+      by_cases hk : k = id
+      · exact ⟨m0, by simp [hk]⟩
+      · obtain ⟨r, hr1, hr2⟩ := h
+        rcases List.mem_cons.mp hr1 with heq | hin
+        · subst heq; exact absurd hr2 hk
+        · obtain ⟨m, hm⟩ := lookupLast_isSome_of_key (s := rest) ⟨r, hin, hr2⟩
+          rw [hm] at hr; exact absurd hr (by simp)
+
+/-- If every row keyed `id` carries the same value and there is one, that is the value read. -/
+theorem lookupLast_const {id : Nat} {v : Mem} {s : State}
+    (hall : ∀ r ∈ s, r.1 = id → r.2 = v) (hex : ∃ r ∈ s, r.1 = id) : lookupLast id s = some v := by
+  obtain ⟨m, hm⟩ := lookupLast_isSome_of_key hex
+  have := hall (id, m) (lookupLast_mem hm) rfl
+  simp at this
+  rw [hm, this]
+
 theorem memOf_nil (id : Nat) : memOf [] id = {} := by simp [memOf, lookupLast]
+
+theorem memOf_no_key {s : State} {id : Nat} (h : ∀ r ∈ s, r.1 ≠ id) : memOf s id = {} := by
+  unfold memOf
+  rw [lookupLast_none h]
+  rfl
+
+/-- The row a link of a classified tick inserts (if any). -/
+def rowOf (s : State) (t : Tick) (l : LinkIn) : Option (Nat × Mem) :=
+  if l.connected then some (l.id, (stepOf s t l).1)
+  else if (memOf s l.id).probation > 1 then some (l.id, probRow ((memOf s l.id).probation - 1))
+  else none
+
+theorem nextRows_eq (s : State) (t : Tick) : nextRows s t = t.filterMap (rowOf s t) := rfl
+
+theorem rowOf_key {s : State} {t : Tick} {l : LinkIn} {r : Nat × Mem} (h : rowOf s t l = some r) :
+    r.1 = l.id := by
+  unfold rowOf at h
+  split at h
+  · simp at h; rw [← h]
+  · split at h
+    · simp at h; rw [← h]
+    · simp at h
+
+theorem filterMap_keys_sublist (f : LinkIn → Option (Nat × Mem))
+    (hf : ∀ l r, f l = some r → r.1 = l.id) :
+    ∀ t : Tick, ((t.filterMap f).map (·.1)).Sublist (t.map (·.id))
+  | [] => by simp
+  | l :: rest => by
+    simp only [List.filterMap_cons, List.map_cons]
+    cases hfl : f l with
+    | none => exact List.Sublist.cons _ (filterMap_keys_sublist f hf rest)
+    | some r =>
+      simp only [List.map_cons]
+      rw [hf l r hfl]
+      exact List.Sublist.cons_cons _ (filterMap_keys_sublist f hf rest)
+
+theorem nodup_map_inj {t : Tick} (hn : (t.map (·.id)).Nodup) {a b : LinkIn}
+    (ha : a ∈ t) (hb : b ∈ t) (hid : a.id = b.id) : a = b := by
+  induction t with
+  | nil => simp at ha
+  | cons x rest ih =>
+    simp only [List.map_cons, List.nodup_cons] at hn
+    rcases List.mem_cons.mp ha with ha | ha <;> rcases List.mem_cons.mp hb with hb | hb
+    · rw [ha, hb]
+    · exfalso; apply hn.1; rw [← ha, hid]; exact List.mem_map_of_mem hb
+    · exfalso; apply hn.1; rw [← hb, ← hid]; exact List.mem_map_of_mem ha
+    · exact ih hn.2 ha hb
 
 /-- Keys of the rows inserted by a tick are a sub-list of the tick's ids. -/
 theorem nextRows_keys_sublist (s : State) (t : Tick) :
     ((nextRows s t).map (·.1)).Sublist (t.map (·.id)) := by
-  unfold nextRows
-  induction t with
-  | nil => simp
-  | cons l rest ih =>
-    simp only [List.filterMap_cons, List.map_cons]
-    split
-    · rename_i hnone
-      exact List.Sublist.cons _ ih
-    · rename_i b hb
-      split at hb
-      · simp only [Option.some.injEq] at hb
-        subst hb
-        simp only [List.map_cons]
-        exact List.Sublist.cons₂ _ ih
-      · simp at hb
+  rw [nextRows_eq]
+  exact filterMap_keys_sublist (rowOf s t) (fun _ _ h => rowOf_key h) t
 
-theorem mem_nextRows {s : State} {t : Tick} {id : Nat} {m : Mem} :
-    (id, m) ∈ nextRows s t ↔ ∃ l ∈ t, l.connected = true ∧ l.id = id ∧ m = (stepOf s t l).1 := by
-  unfold nextRows
-  simp only [List.mem_filterMap]
-  constructor
-  · rintro ⟨l, hl, h⟩
-    split at h
-    · rename_i hc
-      simp only [Option.some.injEq, Prod.mk.injEq] at h
-      exact ⟨l, hl, hc, h.1, h.2.symm⟩
-    · simp at h
-  · rintro ⟨l, hl, hc, hid, hm⟩
-    exact ⟨l, hl, by simp [hc, hid, hm]⟩
+theorem mem_nextRows {s : State} {t : Tick} {r : Nat × Mem} :
+    r ∈ nextRows s t ↔ ∃ l ∈ t, rowOf s t l = some r := by
+  rw [nextRows_eq]
+  simp [List.mem_filterMap]
 
-/-- What a row of the next state can be: the default (no row), or the new row of a connected link
-of this (non-bypassed) tick carrying that id. -/
+/-- Bypass: every probation counter `> 1` survives minus one; everything else is forgotten. -/
+theorem memOf_bypassRows (s : State) (id : Nat) :
+    memOf (bypassRows s) id =
+      if (memOf s id).probation > 1 then probRow ((memOf s id).probation - 1) else {} := by
+  have hmem : ∀ r, r ∈ bypassRows s ↔
+      ∃ r0 ∈ s, (memOf s r0.1).probation - 1 > 0 ∧ r = (r0.1, probRow ((memOf s r0.1).probation - 1)) := by
+    intro r
+    unfold bypassRows
+    simp only [List.mem_filterMap]
+    constructor
+    · rintro ⟨r0, h0, h⟩
+      split at h
+      · rename_i hp
+        simp only [Option.some.injEq] at h
+        exact ⟨r0, h0, hp, h.symm⟩
+      · simp at h
+    · rintro ⟨r0, h0, hp, h⟩
+      exact ⟨r0, h0, by simp [hp, h]⟩
+  split
+  · rename_i hp
+    -- `id` must be a key of `s`
+    have hkey : ∃ r ∈ s, r.1 = id := by
+      apply Classical.byContradiction
+      intro hno
+      have : memOf s id = {} := memOf_no_key (fun r hr hid => hno ⟨r, hr, hid⟩)
+      rw [this] at hp
+      simp at hp
+    unfold memOf
+    rw [lookupLast_const (v := probRow ((memOf s id).probation - 1))]
+    · rfl
+    · intro r hr hid
+      obtain ⟨r0, _, _, heq⟩ := (hmem r).mp hr
+      rw [heq] at hid ⊢
+      simp at hid
+      simp [hid]
+    · obtain ⟨r0, h0, hid⟩ := hkey
+      exact ⟨(r0.1, probRow ((memOf s r0.1).probation - 1)),
+        (hmem _).mpr ⟨r0, h0, by rw [hid]; omega, rfl⟩, hid⟩
+  · rename_i hp
+    apply memOf_no_key
+    intro r hr hid
+    obtain ⟨r0, _, hp0, heq⟩ := (hmem r).mp hr
+    rw [heq] at hid
+    simp at hid
+    rw [hid] at hp0
+    omega
+
+theorem memOf_nextState_bypass {s : State} {t : Tick} (hb : bypass t = true) (id : Nat) :
+    memOf (nextState s t) id =
+      if (memOf s id).probation > 1 then probRow ((memOf s id).probation - 1) else {} := by
+  unfold nextState
+  simp only [hb, ↓reduceIte]
+  exact memOf_bypassRows s id
+
+/-- What a row of the next state can be: the default (no row); or the new row of a connected link
+of this (non-bypassed) tick carrying that id; or a carried-over probation counter. -/
 theorem memOf_nextState_cases (s : State) (t : Tick) (id : Nat) :
     memOf (nextState s t) id = {} ∨
     (bypass t = false ∧ ∃ l ∈ t, l.connected = true ∧ l.id = id ∧
-      memOf (nextState s t) id = (stepOf s t l).1) := by
-  unfold nextState
-  split
-  · left; exact memOf_nil id
-  · rename_i hb
-    unfold memOf
+      memOf (nextState s t) id = (stepOf s t l).1) ∨
+    ((memOf s id).probation > 1 ∧
+      memOf (nextState s t) id = probRow ((memOf s id).probation - 1)) := by
+  cases hb : bypass t
+  · unfold nextState
+    simp only [hb, Bool.false_eq_true, ↓reduceIte]
     cases hl : lookupLast id (nextRows s t) with
-    | none => left; rfl
+    | none => left; unfold memOf; rw [hl]; rfl
     | some m =>
-      right
-      refine ⟨by simpa using hb, ?_⟩
-      obtain ⟨l, hl1, hc, hid, hm⟩ := mem_nextRows.mp (lookupLast_mem hl)
-      exact ⟨l, hl1, hc, hid, by simp [hm]⟩
+      have hmo : memOf (nextRows s t) id = m := by unfold memOf; rw [hl]; rfl
+      rw [hmo]
+      obtain ⟨l, hl1, hrow⟩ := mem_nextRows.mp (lookupLast_mem hl)
+      have hid : l.id = id := by have := rowOf_key hrow; simpa using this.symm
+      unfold rowOf at hrow
+      split at hrow
+      · rename_i hc
+        simp only [Option.some.injEq, Prod.mk.injEq] at hrow
+        right; left
+        exact ⟨trivial, l, hl1, hc, hid, hrow.2.symm⟩
+      · split at hrow
+        · rename_i hp
+          simp only [Option.some.injEq, Prod.mk.injEq] at hrow
+          right; right
+          rw [hid] at hp hrow
+          exact ⟨hp, hrow.2.symm⟩
+        · simp at hrow
+  · rw [memOf_nextState_bypass hb]
+    split
+    · rename_i hp
+      right; right; exact ⟨hp, rfl⟩
+    · left; rfl
 
-/-- With distinct ids in the tick, the next state holds exactly the new row of each connected link. -/
+/-- With distinct ids in a classified tick, a link in the slice leaves exactly its own row. -/
 theorem memOf_nextState_of_mem {s : State} {t : Tick} {l : LinkIn}
+    (hn : (t.map (·.id)).Nodup) (hb : bypass t = false) (hl : l ∈ t) :
+    memOf (nextState s t) l.id = match rowOf s t l with | some r => r.2 | none => {} := by
+  unfold nextState
+  simp only [hb, Bool.false_eq_true, ↓reduceIte]
+  have hnd : ((nextRows s t).map (·.1)).Nodup := (nextRows_keys_sublist s t).nodup hn
+  cases hrow : rowOf s t l with
+  | some r =>
+    have hk := rowOf_key hrow
+    have hmem : (l.id, r.2) ∈ nextRows s t := by
+      rw [← hk]; exact mem_nextRows.mpr ⟨l, hl, hrow⟩
+    unfold memOf
+    rw [lookupLast_nodup hnd hmem]
+    rfl
+  | none =>
+    apply memOf_no_key
+    intro r hr hid
+    obtain ⟨l', hl', hrow'⟩ := mem_nextRows.mp hr
+    have hk := rowOf_key hrow'
+    -- l' has the same id as l, so l' = l by Nodup
+    have hsame : l' = l := by
+      have hid' : l'.id = l.id := by rw [← hk, hid]
+      exact nodup_map_inj hn hl' hl hid'
+    rw [hsame, hrow] at hrow'
+    simp at hrow'
+
+theorem memOf_nextState_connected {s : State} {t : Tick} {l : LinkIn}
     (hn : (t.map (·.id)).Nodup) (hb : bypass t = false) (hl : l ∈ t) (hc : l.connected = true) :
     memOf (nextState s t) l.id = (stepOf s t l).1 := by
-  unfold nextState memOf
-  simp only [hb, Bool.false_eq_true, ↓reduceIte]
-  have hmem : (l.id, (stepOf s t l).1) ∈ nextRows s t := mem_nextRows.mpr ⟨l, hl, hc, rfl, rfl⟩
-  have hnd : ((nextRows s t).map (·.1)).Nodup := (nextRows_keys_sublist s t).nodup hn
-  rw [lookupLast_nodup hnd hmem]
-  rfl
+  rw [memOf_nextState_of_mem hn hb hl]
+  simp [rowOf, hc]
 
-/-- A link that is not classified in a tick has no row afterwards. -/
-theorem memOf_nextState_unclassified {s : State} {t : Tick} {id : Nat}
-    (h : bypass t = true ∨ ∀ l ∈ t, l.id = id → l.connected = false) :
-    memOf (nextState s t) id = {} := by
-  rcases memOf_nextState_cases s t id with h0 | ⟨hb, l, hl, hc, hid, _⟩
-  · exact h0
-  · rcases h with h | h
+theorem memOf_nextState_disconnected {s : State} {t : Tick} {l : LinkIn}
+    (hn : (t.map (·.id)).Nodup) (hb : bypass t = false) (hl : l ∈ t) (hc : l.connected = false) :
+    memOf (nextState s t) l.id =
+      if (memOf s l.id).probation > 1 then probRow ((memOf s l.id).probation - 1) else {} := by
+  rw [memOf_nextState_of_mem hn hb hl]
+  simp only [rowOf, hc, Bool.false_eq_true, ↓reduceIte]
+  by_cases hp : (memOf s l.id).probation > 1 <;> simp [hp]
+
+/-- A link that is not in the slice of a classified tick has no row afterwards. -/
+theorem memOf_nextState_absent {s : State} {t : Tick} {id : Nat}
+    (hb : bypass t = false) (h : ∀ l ∈ t, l.id ≠ id) : memOf (nextState s t) id = {} := by
+  unfold nextState
+  simp only [hb, Bool.false_eq_true, ↓reduceIte]
+  apply memOf_no_key
+  intro r hr hid
+  obtain ⟨l, hl, hrow⟩ := mem_nextRows.mp hr
+  exact h l hl (by rw [← rowOf_key hrow, hid])
+
+/-- A positive probation counter always counts down by exactly one over a tick in which the link is
+in the slice (connected or not) or which is bypassed. -/
+theorem probation_countdown {s : State} {t : Tick} {id : Nat}
+    (hn : (t.map (·.id)).Nodup) (hp : (memOf s id).probation > 0)
+    (h : bypass t = true ∨ ∃ l ∈ t, l.id = id) :
+    (memOf (nextState s t) id).probation = (memOf s id).probation - 1 := by
+  cases hb : bypass t
+  · rcases h with h | ⟨l, hl, hid⟩
     · rw [hb] at h; exact absurd h (by simp)
-    · have := h l hl hid
-      rw [hc] at this; exact absurd this (by simp)
+    · subst hid
+      cases hc : l.connected
+      · rw [memOf_nextState_disconnected hn hb hl hc]
+        split
+        · rfl
+        · show 0 = _; omega
+      · rw [memOf_nextState_connected hn hb hl hc]
+        exact (linkStep_probation _ _ _ _ hp).2.2.1
+  · rw [memOf_nextState_bypass hb]
+    split
+    · rfl
+    · show 0 = _; omega
 
 /-! ## Verdict of a classified link -/
 
@@ -456,10 +628,14 @@ theorem stateAt_bounds (h : Nat → Tick) (k : Nat) (id : Nat) :
   | zero => simp [stateAt, State.init, memOf_nil]
   | succ k ih =>
     simp only [stateAt]
-    rcases memOf_nextState_cases (stateAt h k) (h k) id with h0 | ⟨_, l, _, _, _, hm⟩
+    rcases memOf_nextState_cases (stateAt h k) (h k) id with h0 | ⟨_, l, _, _, _, hm⟩ | ⟨_, hm⟩
     · rw [h0]; simp
     · rw [hm]
       unfold stepOf
       exact linkStep_bounds _ _ _ _ (ih l.id).1 (ih l.id).2
+    · rw [hm]
+      have := (ih id).2
+      simp [probRow]
+      omega
 
 end Srtla.Classifier
